@@ -422,6 +422,10 @@ class FileStorage(
         checked = 0
 
         while checked < max_checked:
+            if pos < 12:
+                # Only empty or undone transactions precede the saved
+                # position: nothing to check the index against.
+                return 0
             self._file.seek(pos - 8)
             rstl = self._file.read(8)
             tl = u64(rstl)
